@@ -68,10 +68,23 @@ def _nontrivial(bl):
 def run(tier, lists_override=None):
     rep = common.Report("C15", tier)
     work = common.scratch("verif.c15.")
-    cfg = "MCMetaBlocks_%s.cfg" % tier
-    lists_file = os.path.join(work, "lists.json")
-    design = common.run_tlc("MCMetaBlocks", cfg, env={"OUT_FILE": lists_file})
-    lists = json.load(open(lists_file))
+    cfgs = ["MCMetaBlocks_quick.cfg"] if tier == "quick" else ["MCMetaBlocks_thorough.cfg", "MCMetaBlocks_thorough_b.cfg", "MCMetaBlocks_thorough_c.cfg"]
+    cfg = " + ".join(cfgs)
+    lists, seen = [], set()
+
+    class design:       # totals over the design runs
+        distinct = 0
+        generated = 0
+    for c in cfgs:
+        lists_file = os.path.join(work, "lists.json")
+        d = common.run_tlc("MCMetaBlocks", c, env={"OUT_FILE": lists_file})
+        design.distinct += d.distinct
+        design.generated += d.generated
+        for bl in json.load(open(lists_file)):
+            k = json.dumps(bl, sort_keys=True)
+            if k not in seen:
+                seen.add(k)
+                lists.append(bl)
     if lists_override is not None:
         lists = lists_override
     # spec -> code
@@ -82,11 +95,19 @@ def run(tier, lists_override=None):
     sample = [lists[i] for i in range(0, len(lists), step)] + [rnd.choice(lists) for _ in range(50)]
     for bl in sample:
         recs.append(_render_one(bl))
-    trace_file = os.path.join(work, "trace.json")
-    json.dump(recs, open(trace_file, "w"))
-    # code -> spec
-    val = common.run_tlc("MetaTrace", "MetaTrace.cfg", env={"TRACE_FILE": trace_file})
-    verdicts = val.plain("VERDICT")
+    # code -> spec, in chunks TLC's JSON reader is comfortable with
+    class val:
+        distinct = 0
+        generated = 0
+    verdicts = []
+    CH = 50000
+    for off in range(0, len(recs), CH):
+        trace_file = os.path.join(work, "trace.json")
+        json.dump(recs[off:off + CH], open(trace_file, "w"))
+        v = common.run_tlc("MetaTrace", "MetaTrace.cfg", env={"TRACE_FILE": trace_file})
+        val.distinct += v.distinct
+        val.generated += v.generated
+        verdicts += [(t, idx + off, clause) for t, idx, clause in v.plain("VERDICT")]
     if val.distinct != 2 * len(recs):
         raise common.MachineryError("trace validation visited %d states, expected %d" % (val.distinct, 2 * len(recs)))
     for _, idx, clause in verdicts:
